@@ -176,6 +176,21 @@ public:
             const XalanNode*                    context = 0,
             const Locator*                      locator = 0);
 
+#if defined(APACHE_XALAN_C_VERIF)
+    // verification hook H1: logical sizes of the stacks that reset() must bring back to their initial state
+    template<class VectorT>
+    void
+    verifResidue(VectorT&   v) const
+    {
+        v.push_back((unsigned long)m_currentNodeStack.size());
+        v.push_back((unsigned long)m_contextNodeListStack.size());
+        v.push_back((unsigned long)(m_prefixResolver != 0));
+        v.push_back((unsigned long)(m_xpathEnvSupport != 0));
+        v.push_back((unsigned long)(m_domSupport != 0));
+        v.push_back((unsigned long)(m_xobjectFactory != 0));
+    }
+#endif
+
     // These interfaces are inherited from XPathExecutionContext...
 
     virtual void
